@@ -369,7 +369,8 @@ func (p *Plugin) out(workerData *pipeline.WorkerData, batch *pipeline.Batch) err
 			if fieldVal == nil {
 				continue
 			}
-			pipeline.CreateNestedField(root, cf.toPath).MutateToNode(fieldVal)
+			// a deep copy: MutateToNode would share the value's children with the event (and re-parent them)
+			pipeline.CreateNestedField(root, cf.toPath).MutateToJSON(root, fieldVal.EncodeToString())
 		}
 		outBuf = root.Encode(outBuf)
 		_ = root.DecodeString("{}")
